@@ -3,6 +3,7 @@ import KyupyVerif.Proofs.TransformElim
 import KyupyVerif.Proofs.TransformStable
 import KyupyVerif.Proofs.TransformSem6
 import KyupyVerif.Proofs.TransformSem7
+import KyupyVerif.Proofs.CopyTrim
 import KyupyVerif.Proofs.Substitute4
 import KyupyVerif.Proofs.SubstituteRes
 import KyupyVerif.Proofs.SubstSem9
@@ -179,6 +180,39 @@ theorem copy_pickle_same_function (nn : NNet) (h : nn.wf = true) (t : NNet → N
     · simp [Function.comp, pickle_dump_eq nn h, copy_dump_eq nn h]
     · simp [Function.comp, pickle_dump_eq nn h, copy_dump_eq nn h]
   rw [e]; exact ⟨rfl, rfl, fun _ _ _ => rfl, fun _ => rfl, h⟩
+
+/-- **copy / pickle of a dump that is well-formed only up to trailing `None`s** (`wfNoTrail`: what `substitute` /
+    `resolve_tlib_cells` return, `substitute_sem_general` / `resolve_sem_general`): the rebuilt circuit is the dump with the
+    trailing `None`s of every pin list trimmed (`trimNet`, Proofs/CopyTrim.lean) — audit finding 5 (b2) -/
+theorem copy_trims (nn : NNet) (h : nn.wfNoTrail = true) : copyNet nn = trimNet nn ∧ pickleNet nn = trimNet nn :=
+  have w := WFm.of_wfNoTrail h
+  ⟨rebuild_trim nn w _ (fun i hi => lookup_key_m nn w i hi), rebuild_trim nn w id (fun _ _ => rfl)⟩
+
+/-- for a well-formed dump trimming changes nothing: `copy_trims` contains `copy_dump_eq` / `pickle_dump_eq` -/
+theorem trim_wf_id (nn : NNet) (h : nn.wf = true) : trimNet nn = nn := by
+  rw [← (copy_trims nn (wf_wfNoTrail h)).1]; exact copy_dump_eq nn h
+
+/-- … hence the copy of a `wfNoTrail` dump is WELL-FORMED (`wf`: `elim_*`, `substitute_*`, C01 apply to it), has the same
+    node names, kinds, lines, ports, `s_nodes` (names and order), every node reads and drives the same lines at every pin,
+    and exactly the same labellings are consistent — the same function.  With `substitute_sem_general` /
+    `resolve_sem_general` (result `wfNoTrail`): resolve → copy / pickle → eliminate chains in theorems. -/
+theorem copy_wfNoTrail_same_function (nn : NNet) (h : nn.wfNoTrail = true) (t : NNet → NNet)
+    (ht : t = copyNet ∨ t = pickleNet) :
+    (t nn).wf = true ∧ (t nn).names = nn.names ∧ (t nn).net.lines = nn.net.lines ∧ (t nn).net.io = nn.net.io ∧
+    (t nn).net.nodes.size = nn.net.nodes.size ∧ (t nn).net.sNodes = nn.net.sNodes ∧ (t nn).sNames = nn.sNames ∧
+    (∀ i, ((t nn).net.node i).kind = (nn.net.node i).kind ∧
+      (∀ k, ((t nn).net.node i).inPin k = (nn.net.node i).inPin k) ∧ (∀ k, ((t nn).net.node i).outPin k = (nn.net.node i).outPin k)) ∧
+    (∀ {α : Type} [BEq α] (z : α) (neg : α → α) (prim : String → α → α → α → α → α) (asg : Nat → α) (v : Array α),
+      consistentB (t nn).net z neg prim asg v = consistentB nn.net z neg prim asg v) := by
+  have e : t nn = trimNet nn := by
+    rcases ht with e | e <;> subst e
+    · exact (copy_trims nn h).1
+    · exact (copy_trims nn h).2
+  rw [e]
+  refine ⟨wf_of_WF (trimNet_WF nn (WFm.of_wfNoTrail h)), rfl, rfl, rfl, by simp [trimNet], trimNet_sNodes nn, ?_,
+    fun i => ⟨trimNet_kind nn i, trimNet_inPin nn i, trimNet_outPin nn i⟩,
+    fun z neg prim asg v => trimNet_consistentB nn z neg prim asg v⟩
+  simp only [NNet.sNames, trimNet_sNodes]; rfl
 
 /-- `eliminate_1to1_forks()` (forks visited in any order): port names and their order are kept -/
 theorem elim_ports (nn nn' : NNet) (order : List String) (h : nn.wf = true) (he : elimForksIn skip order nn = some nn') :
@@ -760,6 +794,13 @@ example : ({ exWf with net := { exWf.net with lines := exWf.net.lines.set! 1 ⟨
 /-- a trailing `None` in a pin list is the one thing `copy` does not reproduce (hence part of `wf`) -/
 example : let nn : NNet := { net := { nodes := #[⟨"AND2", [none], []⟩], lines := #[], io := [] }, names := #["g"] }
     nn.wf = false ∧ (copyNet nn).net.nodes.toList.map (·.ins) = [[]] := by decide +kernel
+/-- hypothesis of `copy_trims` / `copy_wfNoTrail_same_function`: the result of `substitute exHostFF 2 exImplFZ` (below) is `wfNoTrail`
+    but not `wf` (the `DFF` has `outs = [line 2, None]`); its copy has `outs = [line 2]` and is `wf` -/
+example : let nn : NNet := { net := { nodes := #[⟨"input", [], [some 0]⟩, ⟨"DFF", [some 0, none], [some 1, none]⟩, ⟨"output", [some 1], []⟩],
+                                      lines := #[⟨0, 0, 1, 0⟩, ⟨1, 0, 2, 0⟩], io := [0, 2] }, names := #["d", "u", "q"] }
+    nn.wfNoTrail = true ∧ nn.wf = false ∧ (copyNet nn).wf = true ∧
+    (copyNet nn).net.nodes.toList.map (fun n => (n.ins, n.outs)) = [([], [some 0]), ([some 0], [some 1]), ([some 1], [])] := by
+  decide +kernel
 /-- hypotheses of `elim_sem_partial`: a consistent labelling of `exWf` exists (the evaluator's), fork 4 is a 1:1 fork -/
 example : consistentB exWf.net false (!·) prim2 (fun j => j == 0) (evalAll exWf.net false (!·) prim2 (fun j => j == 0)) = true ∧
     (exWf.net.node 4).isFork = true ∧ exWf.net.io.contains 4 = false ∧
